@@ -1,7 +1,7 @@
 (* C09 — Directory cache is transparent under concurrency, eviction and coalescing (statements; see also C08). *)
 From Coq Require Import NArith ZArith List.
 Import ListNotations.
-From PM Require Import Model.Server Model.ServerRun Proofs.Server Proofs.ServerExec Proofs.ServerSize.
+From PM Require Import Model.Server Model.ServerRun Proofs.Server Proofs.ServerExec Proofs.ServerSize Proofs.ServerCoalesce.
 Open Scope N_scope.
 
 Section C09.
@@ -28,6 +28,13 @@ Theorem C09_no_cross_talk : forall s k cv, reach s -> (In (k, cv) (cache s) \/ I
 Proof.
   intros s k cv R [H|H]; [eapply (I_cache s (reach_inv root_off_nz leaf_base_nz s R)); eauto|eapply (I_resp s (reach_inv root_off_nz leaf_base_nz s R)); eauto].
 Qed.
+
+(* coalescing: in every reachable state there is at most one outstanding fetch per key (header or directory), every outstanding fetch
+   has its waiters registered in the in-flight table - a request for a key that is being fetched joins them (rule SLoopReq) instead of
+   issuing its own fetch - and a key whose response is queued for the loop is not fetched again before the loop has handled it *)
+Theorem C09_coalesced : forall s, reach s ->
+  NoDup (fetches s) /\ (forall k, In k (fetches s) -> In k (map fst (inflight s))) /\ (forall k, In k (map fst (respq s)) -> ~ In k (fetches s)).
+Proof. intros s R. exact (coalesced root_off_nz s R). Qed.
 End C09.
 
 (* the byte accounting of the cache (Model/ServerRun.v: eviction list with orphans, purge, move-to-front, eviction loop): whatever the
@@ -44,5 +51,6 @@ Proof. exact macro_below. Qed.
 
 Print Assumptions C09_transparent.
 Print Assumptions C09_no_cross_talk.
+Print Assumptions C09_coalesced.
 Print Assumptions C09_size_bound.
 Print Assumptions C09_size_accounting.
